@@ -18,13 +18,13 @@ var plans = map[string]PropPlan{
 		QuickSecs: 90, ThoroughSecs: 1500, Assumptions: seqAssume,
 	},
 	"C02": {
-		Quick:    []Plan{{Scenario: "lb", Kind: "seq"}, {Scenario: "lb.share", PB: 2}, {Scenario: "lb.share.fine", PB: 1, Fine: true}},
-		Thorough: []Plan{{Scenario: "lb", Kind: "seq"}, {Scenario: "lb.share", PB: 4}, {Scenario: "lb.share.fine", PB: 2, Fine: true}},
+		Quick:     []Plan{{Scenario: "lb", Kind: "seq"}, {Scenario: "lb.share", PB: 2}, {Scenario: "lb.share.fine", PB: 1, Fine: true}},
+		Thorough:  []Plan{{Scenario: "lb", Kind: "seq"}, {Scenario: "lb.share", PB: 4}, {Scenario: "lb.share.fine", PB: 2, Fine: true}},
 		QuickSecs: 90, ThoroughSecs: 1500, Assumptions: append([]string{"lb.share: the parent's reader and up to two Slice readers owned by other goroutines, all interleavings within the preemption bound; every return of a block to the pool and every examination of a result are scheduling points on one 'pool' object"}, seqAssume...),
 	},
 	"C03": {
-		Quick:    []Plan{{Scenario: "lb", Kind: "seq"}, {Scenario: "lb.share", PB: 2}, {Scenario: "lb.share.fine", PB: 1, Fine: true}},
-		Thorough: []Plan{{Scenario: "lb", Kind: "seq"}, {Scenario: "lb.share", PB: 4}, {Scenario: "lb.share.fine", PB: 2, Fine: true}},
+		Quick:     []Plan{{Scenario: "lb", Kind: "seq"}, {Scenario: "lb.share", PB: 2}, {Scenario: "lb.share.fine", PB: 1, Fine: true}},
+		Thorough:  []Plan{{Scenario: "lb", Kind: "seq"}, {Scenario: "lb.share", PB: 4}, {Scenario: "lb.share.fine", PB: 2, Fine: true}},
 		QuickSecs: 90, ThoroughSecs: 1500, Assumptions: append([]string{"lb.share: the parent's reader and up to two Slice readers owned by other goroutines, all interleavings within the preemption bound; every return of a block to the pool and every examination of a result are scheduling points on one 'pool' object"}, seqAssume...),
 	},
 	"C04": {
@@ -70,8 +70,8 @@ var plans = map[string]PropPlan{
 		Assumptions: schedAssume,
 	},
 	"C11": {
-		Quick:     []Plan{{Scenario: "poll.live", PB: 2, DB: 0}, {Scenario: "poll.dispatch", PB: 0, DB: 3, NoIter: true}, {Scenario: "poll.many", PB: 1}},
-		Thorough:  []Plan{{Scenario: "poll.live", PB: 3, DB: 0}, {Scenario: "poll.dispatch", PB: 1, DB: 4, NoIter: true}, {Scenario: "poll.many", PB: 2}},
+		Quick:     []Plan{{Scenario: "poll.live", PB: 2, DB: 1}, {Scenario: "poll.dispatch", PB: 0, DB: 3, NoIter: true}, {Scenario: "poll.many", PB: 1}},
+		Thorough:  []Plan{{Scenario: "poll.live", PB: 3, DB: 1}, {Scenario: "poll.dispatch", PB: 1, DB: 4, NoIter: true}, {Scenario: "poll.many", PB: 2}},
 		QuickSecs: 90, ThoroughSecs: 900,
 		Assumptions: append([]string{"Linux epoll only (poll_default_bsd.go does not build here)", "poll.dispatch calls the real event handler with synthetic (flag set x real descriptor state) batches chosen as explored environment options; flag sets the kernel cannot produce for a state are judged by the safety clauses only", "operators are recording stubs with the connection's callback shapes"}, schedAssume...),
 	},
